@@ -141,3 +141,22 @@ register(
         assumptions=["rules are re-supplied on reopen as the API requires", "clear() without rule arguments is not an equivalence case (the statement defines the result only for the rules given to the clear request)"],
     )
 )
+
+# ---------------------------------------------------------------------------
+from . import crash as CR
+
+register(
+    _Spec(
+        "C18",
+        CR.gen_C18,
+        CR.run_C18,
+        300,
+        5000,
+        "fault_enumeration",
+        "per sampled write history: EVERY cut of its program-ordered write log is reconstructed (block granularity for all events; byte granularity for appends: first byte, last-but-one byte, seeded interior offsets) and reopened by the real constructor, then swept with every read-only traversal; a seeded sample of cuts is also executed as in-line crashes (exception out of SimFile.write) and must leave the same bytes; non-trivial when the log has >= 20 events and >= 10 crash states were accepted and swept; distinct = distinct write-log digests",
+        "crash-cut enumeration",
+        components_stub=STUBS,
+        fault_kinds=["crash_states", "cuts_block", "cuts_byte", "inline_crashes", "reopen_refused", "reopen_accepted"],
+        assumptions=["disk model as stated by the property: program-ordered prefix, appends torn at byte granularity, in-place block rewrites atomic, both files cut at the same program point", "rules re-supplied at reopen = union of the rules before and after the interrupted request"],
+    )
+)
